@@ -216,6 +216,7 @@ type space struct {
 	Kinds  [3][]string // nested-call prefixes available to a caller at level 1, 2 (index = caller level)
 	Shapes []string    // body shapes with a nested call
 	Leaves []string    // body shapes without one
+	Block  bool        // the programs are also executed in real blocks
 }
 
 // Shape tokens: p = slot (empty or one NT op), t = optional failing op closing the
